@@ -5,9 +5,9 @@
  *   table ops: R <path> <flags> <nattr> { <name> <val> }*  (init, add_attr.., add_resource)
  *              D <path>                                     (coap_delete_resource)
  *              U | P                                        (unknown-resource / proxy-URI resource: never listed)
- *   wk        { R <path> <flags> <nattr> { <name> <val> }* }*  F <filter>  W all
- *   wk        { R ... }*                                        F <filter>  W list { <off> <len> }*
- *   lk <idx>  { R ... }*                                        F ~         W all | list ...
+ *   lfwk      { R <path> <flags> <nattr> { <name> <val> }* }*  F <filter>  W all
+ *   lfwk      { R ... }*                                        F <filter>  W list { <off> <len> }*
+ *   lflk <idx> { R ... }*                                        F ~         W all | list ...
  *
  *   <path> <name> : "-" (empty) | hex          <val> : "~" (no value) | "-" (empty) | hex
  *   <flags>       : 1 = observable, 2 = OSCORE only        <filter> : "~" (none) | "-" | hex
@@ -298,7 +298,7 @@ out:
 
 
 /* ------------------------------------------------------------------ GET through the server
- *   get <mode> { table ops }  { F <query> }*  { B <szx> }*
+ *   lfget <mode> { table ops }  { F <query> }*  { B <szx> }*
  * <mode> bit 0: COAP_BLOCK_USE_LIBCOAP (else block mode 0, the default); bit 1: the server's
  * block size is capped at 64 (coap_context_set_max_block_size).  <query>: "~" no
  * Uri-Query option, else one Uri-Query option with these bytes (several F: several options).
@@ -499,7 +499,7 @@ int main(void) {
       fflush(stdout);
       continue;
     }
-    if (!strcmp(vtok[0], "get")) {
+    if (!strcmp(vtok[0], "lfget")) {
       i = build_table(2);
       if (i < 0) { puts("ERROR no context"); continue; }
       run_get(i);
@@ -508,8 +508,8 @@ int main(void) {
       fflush(stdout);
       continue;
     }
-    if (!strcmp(vtok[0], "lk")) { lk = atoi(vtok[1]); i = 2; }
-    else if (strcmp(vtok[0], "wk")) { puts("ERROR unknown command"); continue; }
+    if (!strcmp(vtok[0], "lflk")) { lk = atoi(vtok[1]); i = 2; }
+    else if (strcmp(vtok[0], "lfwk")) { puts("ERROR unknown command"); continue; }
     i = build_table(i);
     if (i < 0) { puts("ERROR no context"); continue; }
     run_case(lk, i);
